@@ -310,8 +310,18 @@ pub fn run(prop: &'static str, tier: &str) -> (Acc, String) {
         }
     }
     let small = cases.len();
-    if prop != "C18" {
-        cases.extend(wide_cases());
+    cases.extend(wide_cases());
+    if prop == "C18" {
+        // ids of one, two and three digits: ascending order is numeric, not textual
+        for rev in [false, true] {
+            let mut ids = vec![10usize, 2, 0, 100, 9, 11, 1, 20, 99, 101];
+            if rev {
+                ids.reverse();
+            }
+            let mut ops: Vec<Op> = ids.iter().map(|v| Op::Add(*v)).collect();
+            ops.extend([Op::Bind(2, 10, 0), Op::Bind(10, 100, 1), Op::Bind(9, 11, 0), Op::Bind(100, 2, 0), Op::Put(20, 3), Op::Put(10, 1)]);
+            cases.push(GraphCase { n: 2, cap: 128, ops, what: format!("ids of one, two and three digits{}", if rev { " (reversed insertion)" } else { "" }) });
+        }
     }
     let cfg = HxCfg::new(prop, "graphgen", 2, 8, &[], &[0, 1], &[]);
     let mut sweep_acc = Acc::default();
@@ -334,7 +344,7 @@ pub fn run(prop: &'static str, tier: &str) -> (Acc, String) {
         match prop {
             "C13" => "; for every start vertex: slice() and slice_some() with EVERY subset of the edge set as predicate, under EVERY drain order of slice's work-list (enumerated through the verif choice-point hook); plus wide shapes on Sodg<16> (chains, cycles, stars, bipartite graphs on 12-14 vertices, fans of 1..=16 labelled edges onto 1, 2 or 13 targets)",
             "C19" => "; PLUS a dense capacity sweep: small graphs on ids spread 2^k apart (0, 3, 3+2^k, 4+2^k for 2^k = 8..512) traced under EVERY capacity from the minimum that fits up to the minimum + 2^k + 8 (and 2049): all traces equal; each graph is built three times in fresh objects (fresh hash seeds) and once as Sodg<16> with capacity 256: every public observable, incl. every slice with the grouping of its vertices as Debug shows it, must be identical",
-            "C18" => "; with every placement of {no data, 1 byte, 9 bytes (heap), empty datum, 17 bytes} (n <= 3); to_xml()/to_dot() parsed back and compared with the graph, and all graphs with equal content must give equal text",
+            "C18" => "; with every placement of {no data, 1 byte, 9 bytes (heap), empty datum, 17 bytes} (n <= 3); plus wide shapes on Sodg<16> (12-20 vertices) and graphs on ids of one, two and three digits (0..101 in 128 slots); to_xml()/to_dot() parsed back and compared with the graph (ascending id order), and all graphs with equal content must give equal text",
             _ => "; inspect(v) for every vertex (parsed back into (source,label,target) triples: the edges of all reachable vertices, each exactly once), Debug, Display, v_print(v); plus wide shapes on Sodg<16>",
         },
         ""
